@@ -127,14 +127,15 @@ def stage_gotables():
     return json.load(open(out))
 
 
-def stage_harness(race=False):
-    """build vh against REPO's working tree with -tags verif; returns path of the binary"""
+def stage_harness(race=False, cover=False):
+    """build vh against REPO's working tree with -tags verif; returns path of the binary
+    (cover: statement counters for every package of the repository, written to $GOCOVERDIR at exit)"""
     sd = stage_dir()
-    binp = os.path.join(sd, "vh-race" if race else "vh")
+    binp = os.path.join(sd, "vh-race" if race else ("vh-cover" if cover else "vh"))
     if os.path.exists(binp):
         return binp
     stage_gotables()
-    hd = os.path.join(sd, "harness-src")
+    hd = os.path.join(sd, "harness-src" + ("-race" if race else "-cover" if cover else ""))
     shutil.rmtree(hd, ignore_errors=True)
     shutil.copytree(os.path.join(ROOT, "harness"), hd)
     shutil.copy(os.path.join(sd, "registry_gen.go"), os.path.join(hd, "registry_gen.go"))
@@ -142,7 +143,10 @@ def stage_harness(race=False):
         f.write("module vh\n\ngo 1.21\n\nrequire github.com/ajitpratap0/GoSQLX v0.0.0\n\n"
                 "replace github.com/ajitpratap0/GoSQLX => %s\n" % REPO)
     shutil.copy(os.path.join(REPO, "go.sum"), os.path.join(hd, "go.sum"))
-    cmd = ["go", "build", "-tags", "verif"] + (["-race"] if race else []) + ["-o", binp + ".tmp", "."]
+    extra = ["-race"] if race else []
+    if cover:
+        extra = ["-cover", "-covermode=count", "-coverpkg=./...,github.com/ajitpratap0/GoSQLX/pkg/..."]
+    cmd = ["go", "build", "-tags", "verif"] + extra + ["-o", binp + ".tmp", "."]
     p = run(cmd, cwd=hd, env=GOENV, timeout=900)
     if p.returncode != 0:
         raise StageError("harness-build", p.stderr[-3000:], tree_caused=True)
